@@ -53,6 +53,7 @@ type c11Frame struct {
 	path  string // call path ("" for the root)
 	depth int
 	lit   *ast.FuncLit // the frame executes a local function literal in place
+	envP  string       // call path of the frame that owns the environment in use ("" = root; a literal runs on its creator's)
 }
 
 type c11Interp struct {
@@ -67,10 +68,11 @@ type c11Interp struct {
 	nid      int
 	done     []c11Out // paths that ended at a loop back edge (ctl c11Back) or in a panic
 	funcs    map[*types.Func]*FuncInfo
+	litInfo  map[*ast.FuncLit]*c11Frame // the frame a function literal was created in
 }
 
 func c11NewInterp(pkgs ...*packages.Package) *c11Interp {
-	it := &c11Interp{pkgs: pkgs, maxPaths: 20000, funcs: map[*types.Func]*FuncInfo{}}
+	it := &c11Interp{pkgs: pkgs, maxPaths: 20000, funcs: map[*types.Func]*FuncInfo{}, litInfo: map[*ast.FuncLit]*c11Frame{}}
 	for _, pk := range pkgs {
 		if pk == nil {
 			continue
@@ -129,7 +131,8 @@ func (it *c11Interp) eval(fr *c11Frame, st *c11St, e ast.Expr) []c11SV {
 	case *ast.BasicLit:
 		return one(it.unk(st, "literal"))
 	case *ast.FuncLit:
-		return one(&c11V{k: "funclit", node: x, name: fr.path})
+		it.litInfo[x] = fr
+		return one(&c11V{k: "funclit", node: x, name: fr.envP})
 	case *ast.SelectorExpr:
 		if sel := info.Selections[x]; sel != nil {
 			if sel.Kind() != types.FieldVal {
@@ -282,6 +285,9 @@ func (it *c11Interp) readField(st *c11St, base *c11V, f *types.Var) *c11V {
 			}
 			if o.hv != "" {
 				return c11Sym(o.hv+"."+f.Name(), nil) // modified in a loop: unknown content
+			}
+			if o.base != nil {
+				return c11Field(o.base, f)
 			}
 			return it.zeroOf(st, f.Type())
 		}
@@ -436,6 +442,9 @@ func (it *c11Interp) evalCall(fr *c11Frame, st *c11St, call *ast.CallExpr) []c11
 			mk = info.TypeOf(call)
 		}
 		return it.evalN(fr, st, args, func(s *c11St, vs []*c11V) *c11V {
+			for i := range vs {
+				vs[i] = it.copyStruct(s, vs[i]) // struct values are passed / appended by value
+			}
 			v := &c11V{k: "call", name: bn, xs: vs, typ: mk}
 			if bn == "make" || bn == "new" {
 				v.name = bn + "@" + strconv.Itoa(int(call.Pos())) + fr.path
@@ -483,46 +492,95 @@ func (it *c11Interp) evalCall(fr *c11Frame, st *c11St, call *ast.CallExpr) []c11
 				}
 				continue
 			}
+			for i := range vs {
+				vs[i] = it.copyStruct(r.st, vs[i])
+			}
 			v := &c11V{k: "call", fn: fn, xs: vs, recv: recvE != nil}
 			r.st.ev = append(r.st.ev, c11Ev{kind: "call", call: v, node: call, nas: len(r.st.as), fr: fr.path})
 			out = append(out, c11SV{st: r.st, v: v})
 			continue
 		}
-		if f := vs[0]; fn == nil && f.k == "funclit" && f.name == fr.path && fr.depth < 4 && !strings.Contains(fr.path, "/lit@"+strconv.Itoa(int(f.node.Pos()))) {
-			// a local closure called in the function that created it: executed in place, on the same environment
+		if f := vs[0]; fn == nil && f.k == "funclit" && fr.depth < 5 && !strings.Contains(fr.path, "/lit@"+strconv.Itoa(int(f.node.Pos()))+"#") {
+			// A function literal is executed in place on the environment of the frame that created it: the
+			// current one (local closure) or a caller still on the stack (closure handed to a helper).
 			lit := f.node.(*ast.FuncLit)
-			nf := &c11Frame{pk: fr.pk, info: fr.info, fi: nil, lit: lit, path: fr.path + "/lit@" + strconv.Itoa(int(lit.Pos())), depth: fr.depth + 1}
-			i := 1
-			for _, fl := range lit.Type.Params.List {
-				for _, nm := range fl.Names {
-					if o := info.Defs[nm]; o != nil && i < len(vs) {
-						r.st.env[o] = vs[i]
+			owner := -2 // -1: the current environment; >= 0: index in the stack of callers
+			if f.name == fr.envP {
+				owner = -1
+			} else {
+				for i := len(r.st.stack) - 1; i >= 0; i-- {
+					if r.st.stack[i].path == f.name {
+						owner = i
+						break
 					}
-					i++
-				}
-				if len(fl.Names) == 0 {
-					i++
 				}
 			}
-			for _, o := range it.execList(nf, r.st, lit.Body.List) {
-				switch o.ctl {
-				case c11Panic:
-					it.done = append(it.done, o)
-				case c11Return, c11Normal:
-					switch len(o.res) {
-					case 0:
-						out = append(out, c11SV{st: o.st, v: it.unk(o.st, "no value")})
-					case 1:
-						out = append(out, c11SV{st: o.st, v: o.res[0]})
+			if cf := it.litInfo[lit]; owner != -2 && cf != nil {
+				st := r.st
+				if owner >= 0 {
+					callee := st.env
+					st.env = st.stack[owner].env
+					st.stack = append(st.stack, c11Saved{path: "(suspended)", env: callee})
+				}
+				nf := &c11Frame{pk: cf.pk, info: cf.info, fi: nil, lit: lit, envP: f.name, depth: fr.depth + 1,
+					path: fr.path + "/lit@" + strconv.Itoa(int(lit.Pos())) + "#" + strconv.Itoa(int(call.Pos()))}
+				i := 1
+				for _, fl := range lit.Type.Params.List {
+					for _, nm := range fl.Names {
+						if o := cf.info.Defs[nm]; o != nil && i < len(vs) {
+							st.env[o] = it.copyStruct(st, vs[i])
+						}
+						i++
+					}
+					if len(fl.Names) == 0 {
+						i++
+					}
+				}
+				if lit.Type.Results != nil {
+					for _, fl := range lit.Type.Results.List {
+						for _, nm := range fl.Names {
+							if o, ok := cf.info.Defs[nm].(*types.Var); ok {
+								st.env[o] = it.zeroOf(st, o.Type())
+							}
+						}
+					}
+				}
+				for _, o := range it.execList(nf, st, lit.Body.List) {
+					if o.ctl == c11Return && len(o.res) == 0 && lit.Type.Results != nil {
+						for _, fl := range lit.Type.Results.List {
+							for _, nm := range fl.Names {
+								if ro, ok := cf.info.Defs[nm].(*types.Var); ok {
+									o.res = append(o.res, o.st.env[ro])
+								}
+							}
+						}
+					}
+					if owner >= 0 {
+						n := len(o.st.stack)
+						top := o.st.stack[n-1]
+						o.st.stack = o.st.stack[:n-1]
+						o.st.stack[owner].env = o.st.env
+						o.st.env = top.env
+					}
+					switch o.ctl {
+					case c11Panic:
+						it.done = append(it.done, o)
+					case c11Return, c11Normal:
+						switch len(o.res) {
+						case 0:
+							out = append(out, c11SV{st: o.st, v: it.unk(o.st, "no value")})
+						case 1:
+							out = append(out, c11SV{st: o.st, v: o.res[0]})
+						default:
+							out = append(out, c11SV{st: o.st, vs: o.res})
+						}
 					default:
-						out = append(out, c11SV{st: o.st, vs: o.res})
+						o.st.note("stray control transfer out of a function literal")
+						out = append(out, c11SV{st: o.st, v: it.unk(o.st, "no value")})
 					}
-				default:
-					o.st.note("stray control transfer out of a function literal")
-					out = append(out, c11SV{st: o.st, v: it.unk(o.st, "no value")})
 				}
+				continue
 			}
-			continue
 		}
 		v := &c11V{k: "callv", xs: vs}
 		r.st.ev = append(r.st.ev, c11Ev{kind: "call", call: v, node: call, nas: len(r.st.as), fr: fr.path})
